@@ -1,7 +1,7 @@
 //! `dwarf`: C10 — with DWARF generation on, line rows follow their instructions and subprogram ranges follow their
 //! functions.  DWARF is synthesized with gimli::write (one row per input instruction, one subprogram per function), attached
 //! to the input, and read back from the output with gimli::read; the emitted code is decoded independently with wasmparser.
-use anyhow::{anyhow, Result};
+use anyhow::{anyhow, bail, Result};
 use gimli::write::{Address, AttributeValue, DwarfUnit, EndianVec, LineProgram, LineString, Sections};
 use gimli::{Encoding, Format, LineEncoding, LittleEndian};
 use serde_json::json;
@@ -60,6 +60,23 @@ fn append_custom(wasm: &mut Vec<u8>, name: &str, data: &[u8]) {
     wasm.push(0); leb(payload.len(), wasm); wasm.extend_from_slice(&payload);
 }
 
+/// DWARF 5 only: make every row of the line program name file 0 (the unit's primary file).  gimli's writer cannot be asked for file 0,
+/// so the rows are written against a second file entry (`DW_LNS_set_file 2`) and the operand is patched; the patched program is re-read with
+/// gimli's reader and must have the same rows, all naming file 0.
+pub static ROWS_NAME_FILE0: std::sync::atomic::AtomicBool = std::sync::atomic::AtomicBool::new(false);
+
+fn rows_of(debug_line: &[u8], debug_line_str: &[u8], debug_str: &[u8], addr_size: u8) -> Result<Vec<(u64, u64, u64, bool)>> {
+    let dl = gimli::DebugLine::new(debug_line, LittleEndian);
+    let _ = (debug_line_str, debug_str);
+    let prog = dl.program(gimli::DebugLineOffset(0), addr_size, None, None).map_err(|e| anyhow!("re-reading the patched line program: {e}"))?;
+    let mut rows = prog.rows();
+    let mut out = vec![];
+    while let Some((_, r)) = rows.next_row().map_err(|e| anyhow!("re-reading the patched line program: {e}"))? {
+        out.push((r.address(), r.line().map(|l| l.get()).unwrap_or(0), r.file_index(), r.end_sequence()));
+    }
+    Ok(out)
+}
+
 /// -> (wasm with DWARF, line -> (function, operator name))
 pub fn attach(mut wasm: Vec<u8>, l: &Layout, version: u16, spanning: bool, lowpc_at_entry: bool) -> Result<(Vec<u8>, BTreeMap<u64, (String, String)>)> {
     let encoding = Encoding { format: Format::Dwarf32, version, address_size: 4 };
@@ -68,8 +85,10 @@ pub fn attach(mut wasm: Vec<u8>, l: &Layout, version: u16, spanning: bool, lowpc
     let comp_file = LineString::String(b"unit.c".to_vec());
     let mut program = LineProgram::new(encoding, LineEncoding::default(), comp_dir, comp_file.clone(), None);
     let dir = program.default_directory();
-    // for version 5 this is file 0 (the primary file); for version 4 it is file 1
-    let file = program.add_file(comp_file, dir, None);
+    let file0 = version >= 5 && ROWS_NAME_FILE0.load(std::sync::atomic::Ordering::SeqCst);
+    // (with gimli's writer this is file 1 in both versions; in version 5 file 0 is the primary file written from `comp_file`)
+    let file1 = program.add_file(comp_file, dir, None);
+    let file = if file0 { program.add_file(LineString::String(b"second.c".to_vec()), dir, None) } else { file1 };
     let mut lines = BTreeMap::new();
     let mut next_line = 1u64;
     // functions in input address order
@@ -116,9 +135,25 @@ pub fn attach(mut wasm: Vec<u8>, l: &Layout, version: u16, spanning: bool, lowpc
     }
     let mut sections = Sections::new(EndianVec::new(LittleEndian));
     dwarf.write(&mut sections).map_err(|e| anyhow!("gimli write: {e}"))?;
-    sections.for_each(|id, data| -> std::result::Result<(), ()> { if !data.slice().is_empty() { append_custom(&mut wasm, id.name(), data.slice()); } Ok(()) }).unwrap();
+    let mut secs: Vec<(String, Vec<u8>)> = vec![];
+    sections.for_each(|id, data| -> std::result::Result<(), ()> { if !data.slice().is_empty() { secs.push((id.name().to_string(), data.slice().to_vec())); } Ok(()) }).unwrap();
+    if file0 {
+        let get = |n: &str| secs.iter().find(|(k, _)| k == n).map(|(_, d)| d.clone()).unwrap_or_default();
+        let before = rows_of(&get(".debug_line"), &get(".debug_line_str"), &get(".debug_str"), 4)?;
+        let line = &mut secs.iter_mut().find(|(n, _)| n == ".debug_line").ok_or_else(|| anyhow!("no .debug_line"))?.1;
+        let header_length = u32::from_le_bytes([line[8], line[9], line[10], line[11]]) as usize;
+        let prog = 12 + header_length;
+        let mut k = prog;
+        while k + 1 < line.len() { if line[k] == 0x04 && line[k + 1] == 0x02 { line[k + 1] = 0x00; k += 2; } else { k += 1; } }
+        let after = rows_of(&get_from(&secs, ".debug_line"), &get_from(&secs, ".debug_line_str"), &get_from(&secs, ".debug_str"), 4)?;
+        let same = before.len() == after.len() && before.iter().zip(after.iter()).all(|(b, a)| b.0 == a.0 && b.1 == a.1 && b.3 == a.3);
+        if !same || after.iter().any(|r| !r.3 && r.2 != 0) { bail!("could not synthesize DWARF 5 rows naming file 0 (patched program does not read back as intended)"); }
+    }
+    for (n, d) in &secs { append_custom(&mut wasm, n, d); }
     Ok((wasm, lines))
 }
+
+fn get_from(secs: &[(String, Vec<u8>)], n: &str) -> Vec<u8> { secs.iter().find(|(k, _)| k == n).map(|(_, d)| d.clone()).unwrap_or_default() }
 
 struct Facts { subprograms: BTreeMap<String, Range<u64>>, rows: Vec<(u64, u64)>, ends: Vec<u64> }
 
@@ -167,8 +202,11 @@ fn module_text(pad_small: usize, pad_big: usize) -> String {
         (if (local.get 0) (then (call $i0)) (else (call $i1 (i32.const 5))))
         (i32.sub (local.get 1) (i32.const 1000)))
       (func (export "dead") (result i32) (call $i0) (call $i1 (i32.const 7)) (return (i32.add (i32.const 20) (i32.const 22))) (call $i1 (i32.const 8)) (i32.const 9))
-      (func (export "big") {} (call $i0)))"#, pad(pad_small), pad(pad_big))
+      (func (export "big") {} (call $i0)){})"#, pad(pad_small), pad(pad_big),
+      if NOP_FIRST.load(std::sync::atomic::Ordering::SeqCst) { " (func (export \"nopfirst\") (nop) (call $i0) (call $i1 (i32.const 3)))" } else { "" })
 }
+/// add a function whose FIRST instruction is a `nop` (walrus does not re-emit nops) and that declares no locals
+pub static NOP_FIRST: std::sync::atomic::AtomicBool = std::sync::atomic::AtomicBool::new(false);
 
 fn run(version: u16, spanning: bool, lowpc_at_entry: bool, scenario: &str, pad_small: usize, pad_big: usize) -> Result<Option<String>> {
     let wasm = wat::parse_str(&module_text(pad_small, pad_big))?;
@@ -182,6 +220,8 @@ fn run(version: u16, spanning: bool, lowpc_at_entry: bool, scenario: &str, pad_s
         for (i, (line, op)) in rows.iter().enumerate() { if dead && i + 1 != rows.len() { dead_lines.insert(*line); } dead |= *op == "Return"; }
         if dead_lines.len() != 3 { return Err(anyhow!("battery self-check: expected 3 unreachable instructions in `dead`, found {}", dead_lines.len())); }
     }
+    // ... and nops, which walrus does not re-emit either
+    for (l, (_, o)) in &lines { if o == "Nop" { dead_lines.insert(*l); } }
     let mut config = walrus::ModuleConfig::new();
     config.generate_dwarf(true).generate_producers_section(false);
     let mut m = config.parse(&wasm)?;
@@ -250,22 +290,39 @@ pub fn dwarf(args: &[String]) -> Result<JValue> {
     if args.iter().any(|a| a == "loud") { } else { std::panic::set_hook(Box::new(|_| {})); }
     let mut failures = vec![];
     let mut checked = 0;
-    for version in [4u16, 5] {
+    for (version, file0) in [(4u16, false), (5, false), (5, true)] {
+        ROWS_NAME_FILE0.store(file0, std::sync::atomic::Ordering::SeqCst);
         for spanning in [false, true] {
             for scenario in ["unchanged", "gc", "inserted"] {
                 for (ps, pb) in [(0usize, 45usize), (40, 45), (0, 3)] {
                     checked += 1;
                     let r = std::panic::catch_unwind(|| run(version, spanning, false, scenario, ps, pb));
-                    let mut key = None;
+                    // known finding F11: ONE line sequence spanning several functions is converted into one output sequence although walrus
+                    // re-orders the functions: gimli's writer panics on the non-monotonic offsets, or -- when they happen to stay monotonic --
+                    // rows end up at addresses where no instruction starts.  Every failure of a spanning case is that finding.
+                    let key = if spanning { Some("C10:line-sequence-spanning-reordered-functions-panics") } else { None };
                     let what = match r { Ok(Ok(None)) => continue, Ok(Ok(Some(w))) => w, Ok(Err(e)) => format!("error: {e:#}"),
-                        Err(_) => { if spanning { key = Some("C10:line-sequence-spanning-reordered-functions-panics"); } "panic during parse / emit with DWARF".into() } };
-                    let mut f = json!({"dwarf_version": version, "one_sequence_spanning_all_functions": spanning, "scenario": scenario, "pads": [ps, pb], "what": what});
+                        Err(_) => "panic during parse / emit with DWARF".into() };
+                    let mut f = json!({"dwarf_version": version, "rows_name_file_0": file0, "one_sequence_spanning_all_functions": spanning, "scenario": scenario, "pads": [ps, pb], "what": what});
                     if let Some(k) = key { f["finding_key"] = json!(k); }
                     failures.push(f);
                 }
             }
         }
     }
+    ROWS_NAME_FILE0.store(false, std::sync::atomic::Ordering::SeqCst);
+    // known finding F18: a function whose first instruction is not re-emitted (a leading `nop`): the anchor of its low_pc / of its line
+    // sequence is not in the instruction map, the subprogram is tombstoned and its rows are dropped although the function is emitted
+    NOP_FIRST.store(true, std::sync::atomic::Ordering::SeqCst);
+    for version in [4u16, 5] {
+        checked += 1;
+        let r = std::panic::catch_unwind(|| run(version, false, false, "unchanged", 0, 45));
+        let what = match r { Ok(Ok(None)) => continue, Ok(Ok(Some(w))) => w, Ok(Err(e)) => format!("error: {e:#}"), Err(_) => "panic during parse / emit with DWARF".into() };
+        let mut f = json!({"dwarf_version": version, "function_with_leading_nop": true, "what": what});
+        if what.contains("nopfirst") { f["finding_key"] = json!("C10:debug-info-of-a-function-lost-when-its-first-instruction-is-not-re-emitted"); }
+        failures.push(f);
+    }
+    NOP_FIRST.store(false, std::sync::atomic::Ordering::SeqCst);
     let n_fail = failures.len();
     failures.truncate(40);
     Ok(json!({"violated": !failures.is_empty(), "n_failures": n_fail, "cases_checked": checked, "failures": failures}))
